@@ -10,6 +10,20 @@
 //!   20005  one shared Module + prepared keys + read-only ciphertexts used by N threads with private scratch vs alone
 //!   20006  addresses of the windows returned by the real `Scratch::split_mut`
 //!   20007  the documented scratch sizing (threads * per-thread tmp_bytes, nothing added): does split_mut panic?
+//!
+//! Behind the cargo feature `c20hook` (needs the yield hook `work/proposed_hooks/c20_yield.diff` in /repo:
+//! `poulpy_hal::verif::{set_yield_hook, yield_point}`, compiled with `--cfg poulpy_verif`) the harness installs a
+//! process-global callback at the yield points of the two spawned closures and either LOGS the
+//! `(site, thread_idx, item)` events of an otherwise undisturbed run, or FORCES a schedule: a turn-based scheduler lets
+//! exactly one worker run at a time and decides, each time every live worker is blocked at its next yield point, who
+//! goes next (policy number + random stream carried by the record).  No timeouts: the scheduler waits for the
+//! `SPAWNED` announcement of the spawning thread and counts `DONE` announcements (a drop guard in the closure, so a
+//! panicking worker announces too).
+//!   20008  log only: execute_bdd_circuit_multi_thread (no work), events grouped by thread_idx
+//!   20009  log only: fhe_uint_prepare_custom_multi_thread at the test parameter set
+//!   20010  forced schedule: one real Cmux per item at a small ring degree; events in grant order, slots, bytes vs single-threaded
+//!   20011  forced schedule: (partial) preparation at the test parameter set vs the single-threaded per-bit reference
+//!   20012  forced schedule: circuit wrappers (add/sub/...) at the test parameter set vs single-threaded raw limbs
 use poulpy_bin_fhe::bdd_arithmetic::tests::test_suite::TestContext;
 use poulpy_bin_fhe::bdd_arithmetic::{
     Add, And, BitSize, ExecuteBDDCircuit, FheUint, FheUintPrepare, FheUintPrepared, GetBitCircuitInfo, GetGGSWBit, GetGGSWBitMut,
@@ -83,6 +97,146 @@ fn groups(log: &[(ThreadId, usize)]) -> (Vec<i128>, Vec<i128>, Vec<i128>) {
         gs.iter().map(|g| g.len() as i128).collect(),
         gs.iter().flatten().map(|x| *x as i128).collect(),
     )
+}
+
+/// the yield-hook side: event log and turn-based scheduler
+#[cfg(feature = "c20hook")]
+mod sched {
+    use poulpy_hal::verif::{set_yield_hook, YIELD_DONE, YIELD_SPAWNED};
+    use std::collections::{BTreeMap, BTreeSet};
+    use std::sync::{Arc, Condvar, Mutex, MutexGuard};
+
+    #[derive(Default)]
+    pub struct St {
+        /// item events: log-only = arrival order, forced = grant order
+        pub log: Vec<(usize, usize)>,
+        /// DONE announcements (thread_idx), in arrival order
+        pub done: Vec<usize>,
+        /// SPAWNED announcement of the spawning thread
+        pub spawned: Option<usize>,
+        /// events of a site nobody asked for
+        pub foreign: usize,
+        waiting: BTreeMap<usize, usize>,
+        finished: BTreeSet<usize>,
+        running: Option<usize>,
+        granted: Option<usize>,
+        last: Option<usize>,
+        k: usize,
+    }
+    pub struct Sched {
+        st: Mutex<St>,
+        cv: Condvar,
+        site: u32,
+        /// None = log only
+        policy: Option<i128>,
+        rs: Vec<i128>,
+    }
+
+    /// who goes next: `live` = the workers blocked at a yield point, ascending (the same function as `pick` of
+    /// coq/Model/C20Threads.v — this is the stimulus, not the thing under test)
+    pub fn pick(policy: i128, n: usize, live: &[usize], last: Option<usize>, k: usize, r: i128) -> usize {
+        let (lo, hi) = (live[0], live[live.len() - 1]);
+        let rnd = |q: i128| live[q.rem_euclid(live.len() as i128) as usize];
+        match policy {
+            0 => lo,
+            1 => hi,
+            2 => last.and_then(|x| live.iter().copied().find(|t| *t > x)).unwrap_or(lo),
+            3 => match last { None => hi, Some(x) => live.iter().rev().copied().find(|t| *t < x).unwrap_or(hi) },
+            4 => if live.contains(&(n.wrapping_sub(1))) { n - 1 } else { lo },
+            5 => rnd(r),
+            6 => if k % 2 == 0 { hi } else { lo },
+            7 => match last {
+                Some(x) if live.contains(&x) && r.rem_euclid(4) != 0 => x,
+                _ => rnd(r.div_euclid(4)),
+            },
+            _ => lo,
+        }
+    }
+
+    impl Sched {
+        fn lock(&self) -> MutexGuard<'_, St> { self.st.lock().unwrap_or_else(|e| e.into_inner()) }
+
+        fn dispatch(&self, s: &mut St) {
+            if s.running.is_some() || s.granted.is_some() { return; }
+            let Some(n) = s.spawned else { return };
+            if s.waiting.len() + s.finished.len() < n || s.waiting.is_empty() { return; }
+            let live: Vec<usize> = s.waiting.keys().copied().collect();
+            let r = self.rs.get(s.k).copied().unwrap_or(0);
+            let t = pick(self.policy.unwrap(), n, &live, s.last, s.k, r);
+            s.k += 1;
+            s.last = Some(t);
+            s.granted = Some(t);
+            self.cv.notify_all();
+        }
+
+        fn event(&self, site: u32, t: usize, item: usize) {
+            let mut s = self.lock();
+            if site & 0xff != self.site { s.foreign += 1; return; }
+            let forcing = self.policy.is_some();
+            if site & YIELD_SPAWNED != 0 {
+                s.spawned = Some(t);
+                if forcing { self.dispatch(&mut s); }
+            } else if site & YIELD_DONE != 0 {
+                s.done.push(t);
+                if forcing {
+                    if s.running == Some(t) { s.running = None; }
+                    s.waiting.remove(&t);
+                    s.finished.insert(t);
+                    self.dispatch(&mut s);
+                }
+            } else if !forcing {
+                s.log.push((t, item));
+            } else {
+                if s.running == Some(t) { s.running = None; }
+                s.waiting.insert(t, item);
+                self.dispatch(&mut s);
+                while s.granted != Some(t) { s = self.cv.wait(s).unwrap_or_else(|e| e.into_inner()); }
+                s.granted = None;
+                s.waiting.remove(&t);
+                s.running = Some(t);
+                s.log.push((t, item));
+            }
+        }
+    }
+
+    struct Uninstall;
+    impl Drop for Uninstall { fn drop(&mut self) { set_yield_hook(None); } }
+
+    /// run `f` with the hook installed for `site`; the hook is removed afterwards, also when `f` panics
+    pub fn with_hook<R>(site: u32, policy: Option<i128>, rs: &[i128], f: impl FnOnce() -> R) -> (R, St) {
+        let sc = Arc::new(Sched { st: Mutex::new(St::default()), cv: Condvar::new(), site, policy, rs: rs.to_vec() });
+        let sc2 = sc.clone();
+        set_yield_hook(Some(Box::new(move |s, t, i| sc2.event(s, t, i))));
+        let un = Uninstall;
+        let r = f();
+        drop(un);
+        let st = std::mem::take(&mut *sc.lock());
+        (r, st)
+    }
+
+    impl St {
+        /// log-only view: thread ids ascending, items per thread, all items (thread order, then arrival order)
+        pub fn grouped(&self) -> (Vec<i128>, Vec<i128>, Vec<i128>) {
+            let mut m: BTreeMap<usize, Vec<usize>> = BTreeMap::new();
+            for (t, i) in &self.log { m.entry(*t).or_default().push(*i); }
+            (
+                m.keys().map(|t| *t as i128).collect(),
+                m.values().map(|v| v.len() as i128).collect(),
+                m.values().flatten().map(|i| *i as i128).collect(),
+            )
+        }
+        /// forced view: thread of event k, item of event k
+        pub fn granted(&self) -> (Vec<i128>, Vec<i128>) {
+            (self.log.iter().map(|e| e.0 as i128).collect(), self.log.iter().map(|e| e.1 as i128).collect())
+        }
+        pub fn spawned(&self) -> i128 { self.spawned.map(|x| x as i128).unwrap_or(-1) }
+        /// 1 iff every thread that reported an item announced DONE exactly once, nobody else did, no foreign events
+        pub fn done_ok(&self) -> i128 {
+            let a: BTreeSet<usize> = self.log.iter().map(|e| e.0).collect();
+            let b: BTreeSet<usize> = self.done.iter().copied().collect();
+            (a == b && b.len() == self.done.len() && self.foreign == 0) as i128
+        }
+    }
 }
 
 macro_rules! backend_impl {
@@ -382,6 +536,122 @@ macro_rules! backend_impl {
                 vec![vec![1]]
             }
 
+            /// 20008 (log only, no work) / 20010 (forced, one Cmux per item): ps = [be, n, items, threads, extra, seed(, policy)]
+            #[cfg(feature = "c20hook")]
+            pub fn hook_eval(r: &Rec, forced: bool) -> Vec<Vec<i128>> {
+                let (n, items, threads, extra, seed) = (r.ps[1] as u32, r.ps[2] as usize, r.ps[3] as usize, r.ps[4] as usize, r.ps[5] as u64);
+                let policy = if forced { Some(r.ps[6]) } else { None };
+                let rs: Vec<i128> = r.vs.first().cloned().unwrap_or_default();
+                let module: Module<BE> = Module::<BE>::new(n as u64);
+                let (glwe_l, ggsw_l) = small_layouts(n);
+                let mut src = Source::new(seed32(1, seed));
+                let nbits = if forced { items.max(1) } else { 1 };
+                let mut scratch_p: ScratchOwned<BE> = ScratchOwned::alloc(module.ggsw_prepare_tmp_bytes(&ggsw_l) + 64);
+                let mut inputs = Inputs { bits: Vec::new() };
+                for _ in 0..nbits {
+                    let mut g: GGSW<Vec<u8>> = GGSW::alloc_from_infos(&ggsw_l);
+                    g.fill_uniform(13, &mut src);
+                    let mut p = module.ggsw_prepared_alloc_from_infos(&ggsw_l);
+                    module.ggsw_prepare(&mut p, &g, scratch_p.borrow());
+                    inputs.bits.push(p);
+                }
+                let circ = LogCircuit {
+                    items,
+                    inputs: nbits,
+                    state: if forced { 2 } else { 0 },
+                    nodes: (0..items.max(1)).map(|j| if forced { vec![Node::Cmux(j, 1, 0), Node::None] } else { vec![] }).collect(),
+                    main: thread::current().id(),
+                    log: Mutex::new(Vec::new()),
+                };
+                let per = module.execute_bdd_circuit_tmp_bytes(&glwe_l, circ.state, &ggsw_l);
+                let mut scratch: ScratchOwned<BE> = ScratchOwned::alloc(threads.max(1) * (per + 64) + 64);
+                scratch.data.as_mut().iter_mut().for_each(|x| *x = 0xa5);
+                let mut out: Vec<GLWE<Vec<u8>>> = (0..items + extra).map(|_| GLWE::alloc_from_infos(&glwe_l)).collect();
+                for o in out.iter_mut() { o.data_mut().raw_mut().iter_mut().for_each(|x| *x = GARBAGE); }
+                let ((), st) = sched::with_hook(poulpy_hal::verif::YIELD_SITE_EVAL, policy, &rs, || {
+                    module.execute_bdd_circuit_multi_thread(threads, &mut out, &inputs, &circ, scratch.borrow());
+                });
+                if !forced {
+                    let (tids, lens, all) = st.grouped();
+                    let status: Vec<i128> = out.iter().map(|o| if o.data().raw().iter().all(|x| *x == 0) { 0 } else { 1 }).collect();
+                    return vec![tids, lens, all, status, vec![st.spawned(), st.done.len() as i128, st.done_ok()]];
+                }
+                // the whole circuit on the single-threaded entry point, fresh scratch (hook removed)
+                let mut single: Vec<GLWE<Vec<u8>>> = (0..items + extra).map(|_| GLWE::alloc_from_infos(&glwe_l)).collect();
+                let mut s1: ScratchOwned<BE> = ScratchOwned::alloc(per + 128);
+                module.execute_bdd_circuit(&mut single, &inputs, &circ, s1.borrow());
+                let equal = (0..items + extra).all(|i| glwe_bytes(&out[i]) == glwe_bytes(&single[i]));
+                // item i alone
+                let mut refs: Vec<Vec<u8>> = Vec::new();
+                for i in 0..items {
+                    let one = OneCircuit { inner: &circ, item: i };
+                    let mut o1: Vec<GLWE<Vec<u8>>> = vec![GLWE::alloc_from_infos(&glwe_l)];
+                    module.execute_bdd_circuit(&mut o1, &inputs, &one, s1.borrow());
+                    refs.push(glwe_bytes(&o1[0]));
+                }
+                let distinct = (0..items).all(|i| (0..i).all(|j| refs[i] != refs[j]));
+                let slot: Vec<i128> = out.iter().map(|o| {
+                    let b = glwe_bytes(o);
+                    if let Some(i) = refs.iter().position(|x| *x == b) { i as i128 }
+                    else if b.iter().all(|x| *x == 0) { -1 } else { -2 }
+                }).collect();
+                let (ths, its) = st.granted();
+                vec![ths, its, slot, vec![distinct as i128, st.spawned(), st.done.len() as i128 * st.done_ok(), equal as i128]]
+            }
+
+            /// 20009 (log only) / 20011 (forced): ps = [be, threads, start, count, vseed(, policy)]
+            #[cfg(feature = "c20hook")]
+            pub fn hook_prepare(r: &Rec, forced: bool) -> Vec<Vec<i128>> {
+                let (threads, start, count, vseed) = (r.ps[1] as usize, r.ps[2] as usize, r.ps[3] as usize, r.ps[4] as u64);
+                let policy = if forced { Some(r.ps[5]) } else { None };
+                let rs: Vec<i128> = r.vs.first().cloned().unwrap_or_default();
+                let ctx = &*CTX;
+                let refs = prep_ref(vseed);
+                let distinct = (0..32).all(|i| (0..i).all(|j| refs[i] != refs[j]) && refs[i].iter().any(|x| *x != 0));
+                let (_, c) = ciphertext(vseed);
+                let mut p: Prep = FheUintPrepared::alloc_from_infos(&ctx.module, &ctx.ggsw_infos());
+                garbage_prep(&mut p, vseed);
+                let per = prep_tmp(&c);
+                let mut scratch: ScratchOwned<BE> = ScratchOwned::alloc(threads.max(1) * (per + 64) + 64);
+                scratch.data.as_mut().iter_mut().for_each(|x| *x = 0xa5);
+                let ((), st) = sched::with_hook(poulpy_hal::verif::YIELD_SITE_PREPARE, policy, &rs, || {
+                    p.prepare_custom_multi_thread(threads, &ctx.module, &c, start, count, &ctx.bdd_key, scratch.borrow());
+                });
+                let bits: Vec<Vec<u8>> = (0..32).map(|i| prep_bit_bytes(&p, i)).collect();
+                let status: Vec<i128> = (0..32).map(|i| {
+                    if bits[i] == refs[i] { 1 } else if bits[i].iter().all(|x| *x == 0) { 0 }
+                    else if let Some(j) = refs.iter().position(|x| *x == bits[i]) { 100 + j as i128 } else { -1 }
+                }).collect();
+                if !forced {
+                    let (tids, lens, all) = st.grouped();
+                    return vec![tids, lens, all, status, vec![distinct as i128, st.spawned(), st.done.len() as i128, st.done_ok()]];
+                }
+                let (ths, its) = st.granted();
+                vec![ths, its, status, vec![distinct as i128, st.spawned(), st.done.len() as i128 * st.done_ok()]]
+            }
+
+            /// 20012 (forced): ps = [be, op, threads, aseed, bseed, policy, items]
+            #[cfg(feature = "c20hook")]
+            pub fn hook_op(r: &Rec) -> Vec<Vec<i128>> {
+                let (op, threads, sa, sb, policy) = (r.ps[1], r.ps[2] as usize, r.ps[3] as u64, r.ps[4] as u64, r.ps[5]);
+                let rs: Vec<i128> = r.vs.first().cloned().unwrap_or_default();
+                let ops = operands(sa, sb);
+                let key = (op, sa, sb);
+                let cached = EVAL_REF.lock().unwrap().get(&key).cloned();
+                let reference = match cached {
+                    Some(x) => x,
+                    None => {
+                        let v = std::sync::Arc::new(eval_bytes(op, 0, &ops.0, &ops.1));
+                        EVAL_REF.lock().unwrap().insert(key, v.clone());
+                        v
+                    }
+                };
+                let (got, st) = sched::with_hook(poulpy_hal::verif::YIELD_SITE_EVAL, Some(policy), &rs, || eval_bytes(op, threads, &ops.0, &ops.1));
+                let nonzero = reference.iter().any(|x| *x != 0);
+                let (ths, its) = st.granted();
+                vec![ths, its, vec![(got == *reference) as i128, nonzero as i128, st.spawned(), st.done.len() as i128 * st.done_ok()]]
+            }
+
             pub fn per_thread(kind: i128) -> usize {
                 let ctx = &*CTX;
                 match kind {
@@ -412,6 +682,18 @@ fn kernel(r: &Rec) -> Vec<Vec<i128>> {
         20005 => on_be!(be, shared(r)),
         20006 => on_be!(be, split(r)),
         20007 => on_be!(be, exact(r)),
+        #[cfg(feature = "c20hook")]
+        20008 => on_be!(be, hook_eval(r, false)),
+        #[cfg(feature = "c20hook")]
+        20009 => on_be!(be, hook_prepare(r, false)),
+        #[cfg(feature = "c20hook")]
+        20010 => on_be!(be, hook_eval(r, true)),
+        #[cfg(feature = "c20hook")]
+        20011 => on_be!(be, hook_prepare(r, true)),
+        #[cfg(feature = "c20hook")]
+        20012 => on_be!(be, hook_op(r)),
+        #[cfg(not(feature = "c20hook"))]
+        20008..=20012 => panic!("c20: record kind {} needs the harness feature c20hook", r.code),
         _ => panic!("c20: unknown op {}", r.code),
     }
 }
@@ -419,6 +701,96 @@ fn kernel(r: &Rec) -> Vec<Vec<i128>> {
 pub fn exec(r: &Rec) -> Out {
     let r2 = r.clone();
     guard(move || kernel(&r2))
+}
+
+pub const POLICIES: i128 = 8;
+/// number of outputs of the circuit behind wrapper `op` (add, sub, sll, sra, srl, slt, sltu, or, and, xor)
+const OP_ITEMS: [i128; 10] = [32, 32, 32, 32, 32, 1, 1, 32, 32, 32];
+
+/// records that need the yield hook (only generated with the feature c20hook)
+fn generate_hook(out: &mut Vec<Rec>, rng: &mut Rng, thorough: bool, s: i128, cores: i128) {
+    let stream = |rng: &mut Rng, n: i128| -> Vec<Vec<i128>> { vec![(0..n.max(1)).map(|_| rng.below(1 << 30) as i128).collect()] };
+    // 20008: log only, no work: every (items, threads) of a square + random larger ones + degenerate
+    let (imax, tmax) = if thorough { (48, 52) } else { (24, 27) };
+    for items in 1..=imax {
+        for threads in 1..=tmax {
+            out.push(Rec::new(20008, vec![1 + (items + threads) % 2, 16, items, threads, (items * 5 + threads) % 3, 0], vec![]));
+        }
+    }
+    for _ in 0..(if thorough { 200 } else { 50 }) {
+        out.push(Rec::new(20008, vec![1 + rng.below(2) as i128, 16, rng.range(1, 130) as i128, rng.range(1, 140) as i128, rng.range(0, 4) as i128, 0], vec![]));
+    }
+    for (items, threads) in [(0, 2), (3, 0)] { out.push(Rec::new(20008, vec![1, 16, items, threads, 1, 0], vec![])); }
+
+    // 20010: forced schedules, one Cmux per item.  (a) every policy on a few shapes, (b) two policies (rotating) on a grid
+    // with thread counts dividing / not dividing / exceeding the items, (c) random shapes with the two random policies
+    let mut k = 0i128;
+    let shapes_a: Vec<(i128, i128)> = vec![(7, 2), (7, 3), (12, 5), (12, 8), (32, 3), (32, 4), (32, 5), (32, 8), (33, 16), (9, 4)];
+    for (items, threads) in &shapes_a {
+        for pol in 0..POLICIES {
+            k += 1;
+            out.push(Rec::new(20010, vec![1 + k % 2, if k % 9 == 0 { 64 } else { 16 }, *items, *threads, k % 3, s + k, pol], stream(rng, *items)));
+        }
+    }
+    let grid_i: Vec<i128> = if thorough { (1..=33).collect() } else { vec![1, 2, 3, 4, 5, 7, 8, 9, 12, 16, 17, 31, 32] };
+    let grid_t: Vec<i128> = if thorough { (1..=34).chain([64, 2 * cores]).collect() } else { vec![1, 2, 3, 4, 5, 7, 8, 16, 33] };
+    for items in &grid_i {
+        for threads in &grid_t {
+            for j in 0..2 {
+                k += 1;
+                out.push(Rec::new(20010, vec![1 + k % 2, 16, *items, *threads, k % 3, s + k, (k + 3 * j) % POLICIES], stream(rng, *items)));
+            }
+        }
+    }
+    for _ in 0..(if thorough { 300 } else { 60 }) {
+        k += 1;
+        let items = rng.range(2, 100) as i128;
+        let threads = rng.range(2, 40) as i128;
+        out.push(Rec::new(20010, vec![1 + k % 2, 16, items, threads, k % 3, s + k, if k % 2 == 0 { 5 } else { 7 }], stream(rng, items)));
+    }
+    out.push(Rec::new(20010, vec![1, 16, 0, 2, 1, s, 5], stream(rng, 1)));
+    out.push(Rec::new(20010, vec![1, 16, 4, 0, 1, s, 2], stream(rng, 4)));
+
+    // the real thing at the test parameter set
+    let vseed = 11 + s;
+    // 20009: log only: full word for many thread counts, a spread of partial ranges
+    let mut j = 0usize;
+    let tcs: Vec<i128> = vec![2, 3, 5, 8, 4, 7, 33, 6, 16, 1, 9, 31];
+    for t in (1..=(if thorough { 40 } else { 12 })).chain([16, 31, 32, 33, 2 * cores]) { out.push(Rec::new(20009, vec![1 + t % 2, t, 0, 32, vseed], vec![])); }
+    let parts: Vec<(i128, i128)> = if thorough {
+        (0..32).flat_map(|st| (1..=(32 - st)).map(move |c| (st, c))).collect()
+    } else {
+        vec![(0, 1), (0, 5), (1, 30), (3, 7), (5, 13), (7, 1), (8, 8), (11, 17), (16, 16), (17, 15), (20, 3), (24, 7), (29, 3), (30, 2), (31, 1), (2, 29)]
+    };
+    for (st, c) in &parts {
+        j += 1;
+        out.push(Rec::new(20009, vec![if j % 3 == 0 { 1 } else { 2 }, tcs[j % tcs.len()], *st, *c, vseed], vec![]));
+    }
+    // 20011: forced schedules on (partial) preparation
+    let parts_f: Vec<(i128, i128)> = if thorough {
+        (0..32).step_by(3).flat_map(|st| (1..=(32 - st)).step_by(4).map(move |c| (st, c))).collect()
+    } else {
+        vec![(0, 32), (3, 7), (5, 13), (16, 16), (1, 30), (29, 3), (7, 2), (10, 11)]
+    };
+    for (st, c) in &parts_f {
+        for r in 0..(if thorough { 4 } else { 3 }) {
+            j += 1;
+            let t = [2, 3, 5, 8, 4, 7][j % 6];
+            out.push(Rec::new(20011, vec![if j % 3 == 0 { 1 } else { 2 }, t, *st, *c, vseed, (j as i128 + 3 * r) % POLICIES], stream(rng, *c)));
+        }
+    }
+    for pol in 0..POLICIES { out.push(Rec::new(20011, vec![2, 4, 6, 14, vseed, pol], stream(rng, 14))); }
+    out.push(Rec::new(20011, vec![2, 2, 30, 3, vseed, 2], stream(rng, 3)));
+    out.push(Rec::new(20011, vec![2, 0, 0, 32, vseed, 2], stream(rng, 32)));
+    // 20012: forced schedules on the circuit wrappers
+    let mut q = 0i128;
+    for op in 0..10i128 {
+        for t in if thorough { vec![2, 3, 4, 5, 7, 8, 16, 33] } else { vec![2, 3, 5] } {
+            q += 1;
+            out.push(Rec::new(20012, vec![1 + (op + t) % 2, op, t, 21 + s, 22 + s, (q + op) % POLICIES, OP_ITEMS[op as usize]], stream(rng, 32)));
+        }
+    }
+    for pol in 0..POLICIES { out.push(Rec::new(20012, vec![2, 0, 4, 21 + s, 22 + s, pol, 32], stream(rng, 32))); }
 }
 
 pub fn generate(tier: &str, seed: u64) -> Vec<Rec> {
@@ -514,6 +886,8 @@ pub fn generate(tier: &str, seed: u64) -> Vec<Rec> {
             for threads in [1i128, 2, 3, 4, 5] { out.push(Rec::new(20007, vec![be, kind, threads, per], vec![])); }
         }
     }
+
+    if cfg!(feature = "c20hook") { generate_hook(&mut out, &mut rng, thorough, s, cores); }
 
     // 20005: shared Module + prepared keys + read-only operands, private scratch; 16 threads, then oversubscribed
     out.push(Rec::new(20005, vec![2, 16, 31 + s], vec![]));
